@@ -1,4 +1,5 @@
 import PeptVerif.Model.Reorder
+import PeptVerif.Spec.Reorder
 /-! Helper lemmas for Props/C11 and Props/C07 (no Mathlib needed). -/
 namespace Pept.Reorder
 
@@ -115,5 +116,179 @@ theorem modsAt_slice (a : Annotation) (s e i : Nat) (hi : s + i < e) :
       rw [dictGet?_filterMap_slice (s : Int) (e : Int) d (i : Int) (by omega) (by omega)]
       congr 2
       omega
+
+theorem map_eq_self {α} (f : α → α) (l : List α) (h : ∀ x ∈ l, f x = x) : l.map f = l := by
+  induction l with
+  | nil => rfl
+  | cons x t ih => simp [h x (by simp), ih (fun y hy => h y (by simp [hy]))]
+
+theorem Annotation.ext' {a b : Annotation} (h1 : a.seq = b.seq) (h2 : a.isotope = b.isotope) (h3 : a.static = b.static)
+    (h4 : a.labile = b.labile) (h5 : a.unknown = b.unknown) (h6 : a.nterm = b.nterm) (h7 : a.cterm = b.cterm)
+    (h8 : a.internal = b.internal) (h9 : a.intervals = b.intervals) (h10 : a.charge = b.charge)
+    (h11 : a.adducts = b.adducts) : a = b := by
+  cases a; cases b; simp_all
+
+/-! ### reverse -/
+
+theorem modsAt_reverse (a : Annotation) (sw : Bool) (i : Nat) (hi : i < a.seq.length) :
+    modsAt (reverse a sw) i = modsAt a (a.seq.length - 1 - i) := by
+  unfold modsAt reverse
+  cases hd : a.internal with
+  | none => rfl
+  | some d =>
+    cases d with
+    | nil => rfl
+    | cons p t =>
+      simp only
+      have := dictGet?_map_key (fun k => (a.seq.length : Int) - k - 1) (p :: t) (i : Int)
+        ((a.seq.length - 1 - i : Nat) : Int) (by intro q _; omega)
+      rw [show (List.map (reverseEntry ↑a.seq.length) (p :: t)) =
+        List.map (fun q => ((a.seq.length : Int) - q.1 - 1, q.2)) (p :: t) from rfl, this]
+
+theorem reverseInterval_involutive (n : Int) (iv : Interval) (h : iv.start ≤ iv.stop) :
+    reverseInterval n (reverseInterval n iv) = iv := by
+  unfold reverseInterval
+  have h1 : ¬ (n - iv.stop > n - iv.start) := by omega
+  simp only [h1, if_false]
+  have h2 : ¬ (n - (n - iv.start) > n - (n - iv.stop)) := by omega
+  simp only [h2, if_false]
+  cases iv; simp; omega
+
+theorem reverseEntry_involutive (n : Int) (p : Int × List Mod) : reverseEntry n (reverseEntry n p) = p := by
+  unfold reverseEntry; ext <;> simp; omega
+
+/-! ### shift -/
+
+theorem sub_emod_range (k e n : Int) (hk0 : 0 ≤ k) (hk : k < n) (he0 : 0 ≤ e) (he : e < n) :
+    (k - e) % n = if e ≤ k then k - e else k - e + n := by
+  split
+  · exact Int.emod_eq_of_lt (by omega) (by omega)
+  · rw [← Int.add_emod_right (k - e) n]
+    exact Int.emod_eq_of_lt (by omega) (by omega)
+
+theorem neg_emod_range (k n : Int) (h : 0 < n) : (-k) % n = if k % n = 0 then 0 else n - k % n := by
+  have h1 := Int.emod_add_mul_ediv k n
+  have h2 := Int.emod_nonneg k (by omega : n ≠ 0)
+  have h3 := Int.emod_lt_of_pos k h
+  split
+  · rename_i h0
+    have : -k = n * (-(k / n)) := by rw [Int.mul_neg]; omega
+    rw [this]; simp
+  · rename_i h0
+    have : -k = (n - k % n) + n * (-(k / n) - 1) := by rw [Int.mul_sub, Int.mul_neg]; omega
+    rw [this, Int.add_mul_emod_self_left]
+    exact Int.emod_eq_of_lt (by omega) (by omega)
+
+theorem nodup_map_of_inj_on {α β} (f : α → β) (l : List α) (hn : l.Nodup)
+    (hinj : ∀ x ∈ l, ∀ y ∈ l, f x = f y → x = y) : (l.map f).Nodup := by
+  induction l with
+  | nil => simp
+  | cons x t ih =>
+    simp only [List.nodup_cons] at hn
+    simp only [List.map_cons, List.nodup_cons, List.mem_map, not_exists, not_and]
+    refine ⟨?_, ih hn.2 (fun a ha b hb => hinj a (by simp [ha]) b (by simp [hb]))⟩
+    intro y hy heq
+    have := hinj y (by simp [hy]) x (by simp) heq
+    subst this
+    exact hn.1 hy
+
+theorem shift_keys_nodup (d : Dict) (eff n : Int) (he0 : 0 ≤ eff) (he : eff < n)
+    (hn : (d.map (·.1)).Nodup) (hr : ∀ p ∈ d, 0 ≤ p.1 ∧ p.1 < n) :
+    ((d.map (shiftEntry eff n)).map (·.1)).Nodup := by
+  rw [List.map_map]
+  have : ((fun x : Int × List Mod => x.1) ∘ shiftEntry eff n) = (fun k => (k - eff) % n) ∘ (fun x => x.1) := rfl
+  rw [this, ← List.map_map]
+  apply nodup_map_of_inj_on _ _ hn
+  intro x hx y hy hxy
+  simp only [List.mem_map] at hx hy
+  obtain ⟨p, hp, rfl⟩ := hx
+  obtain ⟨q, hq, rfl⟩ := hy
+  have h1 := hr p hp
+  have h2 := hr q hq
+  rw [sub_emod_range _ _ _ h1.1 h1.2 he0 he, sub_emod_range _ _ _ h2.1 h2.2 he0 he] at hxy
+  split at hxy <;> split at hxy <;> omega
+
+theorem shift_spec (a : Annotation) (k : Int) (hn : a.seq ≠ []) (hk : KeysOK a) :
+    ∃ b, shift a k = .ok b ∧
+      b.seq = a.seq.drop (k % (a.seq.length : Int)).toNat ++ a.seq.take (k % (a.seq.length : Int)).toNat ∧
+      b.internal = (match a.internal with
+        | none => none
+        | some [] => none
+        | some d => some (d.map (shiftEntry (k % (a.seq.length : Int)) a.seq.length))) ∧
+      b.intervals = (match a.intervals with
+        | none => none
+        | some [] => none
+        | some l => some (l.map (shiftInterval (k % (a.seq.length : Int)) a.seq.length))) ∧
+      b.isotope = a.isotope ∧ b.static = a.static ∧ b.labile = a.labile ∧ b.unknown = a.unknown ∧
+      b.charge = a.charge ∧ b.adducts = a.adducts ∧ b.nterm = a.nterm ∧ b.cterm = a.cterm := by
+  have hlen : 0 < a.seq.length := List.length_pos_iff.mpr hn
+  have hn0 : ¬ ((a.seq.length : Int) = 0) := by omega
+  have he0 : 0 ≤ k % (a.seq.length : Int) := Int.emod_nonneg _ hn0
+  have he : k % (a.seq.length : Int) < a.seq.length := Int.emod_lt_of_pos _ (by omega)
+  unfold shift
+  simp only [hn0, if_false]
+  refine ⟨_, rfl, rfl, ?_, ?_, rfl, rfl, rfl, rfl, rfl, rfl, rfl, rfl⟩
+  · cases hd : a.internal with
+    | none => rfl
+    | some d =>
+      obtain ⟨hnd, hr⟩ := hk d hd
+      simp only
+      rw [buildDict_of_nodup _ (shift_keys_nodup d _ _ he0 he hnd hr)]
+      cases d with
+      | nil => rfl
+      | cons p t => simp
+  · cases hl : a.intervals with
+    | none => rfl
+    | some l =>
+      cases l with
+      | nil => rfl
+      | cons p t => simp
+
+theorem modsAt_shift (a b : Annotation) (eff : Int) (he0 : 0 ≤ eff) (he : eff < a.seq.length) (hk : KeysOK a)
+    (hb : b.internal = (match a.internal with
+        | none => none
+        | some [] => none
+        | some d => some (d.map (shiftEntry eff a.seq.length))))
+    (i j : Nat) (hi : i < a.seq.length) (hj : j < a.seq.length)
+    (hij : (j : Int) = if (i : Int) + eff < a.seq.length then (i : Int) + eff else (i : Int) + eff - a.seq.length) :
+    modsAt b i = modsAt a j := by
+  unfold modsAt
+  rw [hb]
+  cases hd : a.internal with
+  | none => rfl
+  | some d =>
+    cases d with
+    | nil => rfl
+    | cons p t =>
+      simp only
+      obtain ⟨_, hr⟩ := hk (p :: t) hd
+      have := dictGet?_map_key (fun x => (x - eff) % (a.seq.length : Int)) (p :: t) (i : Int) (j : Int) (by
+        intro q hq
+        have h1 := hr q hq
+        rw [sub_emod_range _ _ _ h1.1 h1.2 he0 he]
+        split <;> split at hij <;> omega)
+      rw [show List.map (shiftEntry eff ↑a.seq.length) (p :: t) =
+        List.map (fun q => ((q.1 - eff) % (a.seq.length : Int), q.2)) (p :: t) from rfl, this]
+
+theorem shiftEntry_inverse (eff eff' n : Int) (he0 : 0 ≤ eff) (he : eff < n)
+    (he' : eff' = if eff = 0 then 0 else n - eff) (q : Int × List Mod) (hq : 0 ≤ q.1 ∧ q.1 < n) :
+    shiftEntry eff' n (shiftEntry eff n q) = q := by
+  unfold shiftEntry
+  ext
+  · simp only
+    rw [sub_emod_range q.1 eff n hq.1 hq.2 he0 he]
+    split at he'
+    · subst he'; rename_i h0; subst h0
+      simp only [Int.sub_zero]
+      split
+      · exact Int.emod_eq_of_lt (by omega) (by omega)
+      · omega
+    · subst he'
+      split
+      · rw [sub_emod_range _ _ _ (by omega) (by omega) (by omega) (by omega)]
+        split <;> omega
+      · rw [sub_emod_range _ _ _ (by omega) (by omega) (by omega) (by omega)]
+        split <;> omega
+  · rfl
 
 end Pept.Reorder
